@@ -67,6 +67,22 @@ def gen_argv(rng):
     if r < 0.8:
         marker = rng.choice(['-r', '--run', '-g', '--gdb', '-r', '-g', '-Cr', '-Cg', '-pr', '-CCg', '-Cpr'])
     right = [rng.choice(WORDS) for _ in range(rng.randint(0, 6))] if marker else []
+    if marker and rng.random() < 0.6:
+        # most of the time exactly one mode, so that the split itself is what gets exercised (otherwise 60% of the vectors
+        # end in the usage text)
+        out, i = [], 0
+        while i < len(left):
+            if left[i] in ('-l', '--load'):
+                i += 2
+                continue
+            if left[i] in ('-p', '--pipe', '-Cp', '-pC'):
+                i += 1
+                continue
+            out.append(left[i])
+            i += 1
+        left = out
+        if 'p' in marker:
+            marker = marker.replace('p', 'C')
     return ['main.py'] + left + ([marker] if marker else []) + right
 
 
